@@ -259,7 +259,8 @@ TxStep0(m, ev) ==
         ELSE LET c == ConnOf(m, pf.cid)  seq == U16(pf.item, 1) IN
         IF c.sess # pf.handle THEN Bad(m, "C10:connected-before-open+C11:cid")
         ELSE IF Len(pf.item) > c.size       \* a frame the connection cannot carry: the call it belongs to cannot succeed on a real target
-             THEN Bad(m, "C04:request-too-large" \o (IF m.call.api = "read" THEN "+C01:request-undeliverable" ELSE IF m.call.api = "write" THEN "+C02:request-undeliverable" ELSE ""))
+             THEN Bad(m, "C04:request-too-large" \o (IF m.call.api = "read" THEN "+C01:request-undeliverable+C03:request-undeliverable"
+                                                      ELSE IF m.call.api = "write" THEN "+C02:request-undeliverable+C03:request-undeliverable" ELSE ""))
         ELSE IF seq = c.lastSeq THEN Bad(m, "C17:repeat")
         ELSE LET q == MRParse(SubSeq(pf.item, 3, Len(pf.item))) IN
         IF ~q.ok THEN Bad(m, "C14:malformed-request")
